@@ -268,19 +268,29 @@ def run (b : Buf) : List Op → Buf × List Out
 
 /-! ## Reading slices back -/
 
-/-- `Slice(offset)`: the slice and `next` (`none` = -1). -/
+/-- `k ≤ l.length`, computed in `O(k)` (a bounds check must not walk the whole buffer) -/
+def lenGe : Bytes → Nat → Bool
+  | _, 0 => true
+  | [], _ + 1 => false
+  | _ :: t, k + 1 => lenGe t k
+
+/-- `Slice(offset)`: the slice and `next` (`none` = -1).  Everything is read from
+`tail = b.buf[offset:]` (one traversal of the list): the 8-byte prefix, and
+`b.buf[start:next] = tail[start-offset : next-offset]`. -/
 def slice (b : Buf) (off : Nat) : Except Fault (Bytes × Option Nat) :=
   if sliceAtEnd (w off) (w b.offset) then .ok ([], none)
-  else if off + 8 > b.data.length then .error .bounds        -- the prefix is not inside the written data
   else
-    let sz := getU64 sliceBigEndian (b.data.drop off)
-    let start := sliceStart (w off)
-    let next := sliceNext start sz
-    -- `b.buf[start:next]`
-    if start.toNat ≤ next.toNat ∧ next.toNat ≤ b.data.length then
-      let res := (b.data.drop start.toNat).take (next.toNat - start.toNat)
-      if sliceIsLast next (w b.offset) then .ok (res, none) else .ok (res, some next.toNat)
-    else .error .bounds
+    let tail := b.data.drop off
+    if !lenGe tail 8 then .error .bounds        -- the prefix is not inside the written data
+    else
+      let sz := getU64 sliceBigEndian tail
+      let start := sliceStart (w off)
+      let next := sliceNext start sz
+      -- `b.buf[start:next]`
+      if off ≤ start.toNat ∧ start.toNat ≤ next.toNat ∧ lenGe tail (next.toNat - off) then
+        let res := (tail.drop (start.toNat - off)).take (next.toNat - start.toNat)
+        if sliceIsLast next (w b.offset) then .ok (res, none) else .ok (res, some next.toNat)
+      else .error .bounds
 
 /-- The loop shared by `SliceIterate`, `SliceOffsets`, `sortSmall`:
 `for cond(next) { visit next; _, next = b.Slice(next) }`, yielding (offset, slice). -/
@@ -315,10 +325,10 @@ def sliceOffsets (b : Buf) : Except Fault (List Nat) :=
 
 /-- `rawSlice(buf)`: `buf[:8+int(sz)]` (restricted to the written data). -/
 def rawSlice (buf : Bytes) : Except Fault Bytes :=
-  if buf.length < 8 then .error .bounds
+  if !lenGe buf 8 then .error .bounds
   else
     let n := (rawSliceLen (getU64 rawSliceBigEndian buf)).toNat
-    if n ≤ buf.length then .ok (buf.take n) else .error .bounds
+    if lenGe buf n then .ok (buf.take n) else .error .bounds
 
 /-- `d[a:b]` -/
 def region (d : Bytes) (a b : Nat) : Bytes := (d.drop a).take (b - a)
